@@ -206,3 +206,21 @@ void h_permutations3_table(void)
                      P3_same(permutations3[4], p) || P3_same(permutations3[5], p), "C13: every permutation of 3 elements (sign = parity) is listed in permutations3");
   REACH("exit");
 }
+
+/* ======================= MUTATION RECORD (tools/try_mutant.py, scratch worktree; all killed) =======================
+ * IndexCombination4::operator== : `Index4 == rhs.Index4` -> `Index4 == rhs.Index3`            IC4_eq.postcondition.1
+ * IndexCombination4::operator!= : `!(*this==rhs)` -> `(*this==rhs)`                            IC4_ne.postcondition.1
+ * IndexCombination4::operator== (through !=): the Index2 comparison dropped                   IC4_ne.postcondition.1
+ * Permutation3::operator== : perm[1] comparison dropped                                        Permutation3_eq.postcondition.1
+ * Permutation3::operator== (through !=): sign comparison dropped                               Permutation3_ne.postcondition.1
+ * Permutation4::operator== : perm[2] comparison dropped                                        Permutation4_eq.postcondition.1
+ * Permutation4::operator!= : `!(*this==rhs)` -> `(*this==rhs)`                                 Permutation4_ne.postcondition.1
+ * Permutation4::operator== (through !=): `perm[0] == rhs.perm[0]` -> `rhs.perm[1]`             Permutation4_ne.postcondition.1
+ * TwoParticleGF::isVanishing : `return !Vanishing`                                             TwoParticleGF_isVanishing.postcondition.1
+ * TwoParticleGF::getIndex : case 2 returns CX4.getIndex()                                      TwoParticleGF_getIndex.postcondition.2
+ * TwoParticleGF::getIndex : `case 0: case 4:`                                                  TwoParticleGF_getIndex.postcondition.1/.2
+ * TwoParticleGF::getPermutationNumber : `return i+1`                                           TwoParticleGF_getPermutationNumber.postcondition.1
+ * TwoParticleGF::getPermutationNumber : loop from i=1                                          TwoParticleGF_getPermutationNumber.loop_invariant_base.2
+ * permutations3 (Misc.cpp): entry {1,2,0} sign +1 -> -1                                        h_permutations3_table.assertion.1/.3
+ * REMARK: Permutation3/4::operator== compare the sign and all entries but the last; the last entry is determined for values that
+ * are permutations (the type invariant P3_wf / P4_wf in the requires); for other values of the struct the functions are not specified. */
